@@ -258,6 +258,68 @@ def KBody.canonical (kb : KBody) : Bool :=
   kb.operands == (List.range (kb.args.length - 1)).map Ref.val &&
   kb.opTypes ++ [kb.resWidth] == kb.args && kb.ret == [.val kb.args.length]
 
+/-! ## bodies mixing kernel ops and arith ops (fused kernels) and the guard of `LowerLinalgBody` -/
+
+/-- an op of a mixed body: an arith op, or `kernel.k operands : opTypes -> resWidth` -/
+inductive MOp
+  | arith (op : BOp)
+  | kern (k : Kernel) (operands : List Ref) (opTypes : List Nat) (resWidth : Nat)
+  deriving DecidableEq, Repr
+
+structure MBody where
+  args : List Nat
+  ops : List MOp
+  ret : List Ref
+  deriving DecidableEq, Repr
+
+/-- meaning of a kernel op inside a body: the kernel applied to its operands, accumulating on the last
+block argument `acc` (the output element) -/
+def stepKernel (env : List Val) (acc : Option Val) (k : Kernel) (operands : List Ref) (opTypes : List Nat)
+    (resWidth : Nat) : Option Val :=
+  (lookupAll env operands).bind fun vs =>
+    match acc with
+    | none => none
+    | some acc =>
+      if vs.map Val.w = opTypes ∧ acc.w = resWidth then kernelSpec k (vs ++ [acc]) else none
+
+def stepMOp (env : List Val) (acc : Option Val) : MOp → Option Val
+  | .arith op => stepOp env op
+  | .kern k operands opTypes resWidth => stepKernel env acc k operands opTypes resWidth
+
+def evalMOps (acc : Option Val) : List MOp → List Val → Option (List Val)
+  | [], env => some env
+  | op :: rest, env => (stepMOp env acc op).bind fun r => evalMOps acc rest (env ++ [r])
+
+/-- the function a mixed body computes -/
+def evalMBody (b : MBody) (ins : List Val) : Option (List Val) :=
+  if ins.map Val.w = b.args then (evalMOps ins.getLast? b.ops ins).bind fun env => lookupAll env b.ret else none
+
+/-- `isinstance(op, Parsable)` -/
+def Kernel.isParsable : Kernel → Bool
+  | .rescale => false
+  | _ => true
+
+/-- `LowerLinalgBody.match_and_rewrite` on an arbitrary body: `none` = the pattern returns without rewriting.
+It fires only when the FIRST op is a Parsable kernel op AND its `next_op` is the `linalg.yield`
+("only works for non-fused kernels"); the new body is the kernel's `equivalent_region`. -/
+def lowerLinalgBody (b : MBody) : Option Body :=
+  match b.ops with
+  | [.kern k _ opTypes resWidth] => if k.isParsable then some (equivalentRegion k (opTypes ++ [resWidth])) else none
+  | _ => none
+
+/-- a kernel-form body as a mixed body -/
+def KBody.toMBody (kb : KBody) : MBody :=
+  ⟨kb.args, [.kern kb.kernel kb.operands kb.opTypes kb.resWidth], kb.ret⟩
+
+/-- an arith body as a mixed body -/
+def Body.toMBody (b : Body) : MBody := ⟨b.args, b.ops.map MOp.arith, b.ret⟩
+
+/-- the body after `LowerLinalgBody` (unchanged when the pattern does not fire) -/
+def lowerResult (b : MBody) : MBody :=
+  match lowerLinalgBody b with
+  | some r => r.toMBody
+  | none => b
+
 /-! ## rescale -/
 
 structure RescaleParams where
